@@ -489,6 +489,9 @@ func (g *gen) txScripted() {
 	exec := chain.NewTxExecutor(context.Background(), nil, nil, bi, contract.ChainService)
 	w.hist = append(w.hist, "block 1 (scripted)")
 	step := func(x *txSpecC12) bool {
+		if w.failed {
+			return false
+		}
 		ok, tx := w.runTx(bs, exec, x)
 		if ok && x.typ == types.TxType_DEPLOY {
 			w.ctrs = append(w.ctrs, contract.CreateContractID(tx.Body.Account, tx.Body.Nonce))
